@@ -491,6 +491,86 @@ def _time_axes(ctx, prog):
 
 
 # --------------------------------------------------------------------- C20.5
+def _perm_of(t: T, base: T):
+    """False if t is `base`; the index term P if t is base[P] with P an
+    index array (a re-ordering / selection); None otherwise"""
+    if t is base:
+        return False
+    if t.op == "sub" and t.args[0] is base and t.args[1].op not in (
+            "const", "slice", "tuple"):
+        return t.args[1]
+    return None
+
+
+def _xy_match(y, x, errs: T, exp_x: T) -> Optional[bool]:
+    """True: every alternative plots the result's values against the
+    expected x array, both in stored order or both under one common
+    re-ordering; False: another array is plotted; None: not modelled"""
+    if y is None:
+        return False
+    arrays = errs.args[0]
+
+    def stored(t):                 # a companion array as stored (or permuted)
+        if t.op == "sub" and t.args[0].op == "sub":
+            t = t.args[0]
+        return t.op == "sub" and t.args[0] is arrays and \
+            tm.is_const(t.args[1])
+    wrong = unmodelled = mismatch = missing = False
+    conds = [n.args[0] for n in (y,) if n.op == "ite"]
+    cases = [(c, v) for c in conds for v in (True, False)] or [(None, None)]
+    for (c, v) in cases:
+        def assign(a, c=c, v=v):
+            if a is c:
+                return v
+            # an array taken from the result by key is not None
+            if a.op == "cmp" and a.args[0] in ("Is", "IsNot") and \
+                    a.args[2] is tm.NONE and stored(a.args[1]):
+                return a.args[0] == "IsNot"
+            if a.op == "cmp" and a.args[0] in ("Is", "IsNot") and \
+                    a.args[1] is tm.NONE and a.args[2] is tm.NONE:
+                return a.args[0] == "Is"
+            return None
+
+        def alts(t):
+            if t is None:
+                return [None]
+            t = tm.select(t, assign)
+            if t.op == "ite":
+                return alts(t.args[1]) + alts(t.args[2])
+            return [t]
+        for ya in alts(y):
+            py = _perm_of(ya, errs)
+            if py is None:
+                wrong = wrong or stored(ya)
+                unmodelled = unmodelled or not stored(ya)
+                continue
+            for xa in alts(x):
+                none = xa is None or xa is tm.NONE
+                if exp_x is tm.NONE:
+                    if none:
+                        continue
+                    if stored(xa):
+                        wrong = True
+                    else:
+                        unmodelled = True
+                    continue
+                px = None if none else _perm_of(xa, exp_x)
+                if px is not None:
+                    if px is not py:
+                        mismatch = True
+                elif stored(xa):
+                    wrong = True
+                elif none:
+                    missing = True
+                else:
+                    unmodelled = True     # recomputed x, not modelled
+    if wrong:
+        return False
+    if unmodelled:
+        return None
+    return not (mismatch or missing)
+
+
 def _result_plots(ctx, prog):
     """C20.8: evo_ape / evo_rpe hand the plot functions their own data: the
     raw-value plot gets the result's error values against the companion
@@ -526,9 +606,14 @@ def _result_plots(ctx, prog):
                 continue
             b = ea[0].data["bound"] or {}
             exp_x = tm.sub(arrays, const(key)) if key and has else tm.NONE
-            ok = b.get("err_array") is errs and \
-                (b.get("x_array") is exp_x or
-                 (exp_x is tm.NONE and b.get("x_array") is None))
+            ok = _xy_match(b.get("err_array"), b.get("x_array"), errs,
+                           exp_x)
+            if ok is None:
+                ctx.unrecognised(
+                    "C20.8", ea[0], f"plot_result[x={dim}]: values and x "
+                    f"array are re-ordered / recomputed in a way the wiring "
+                    f"rule does not model", key=f"C20.8:raw:{dim}:{has}")
+                continue
             ctx.ob("C20.8", ea[0], bool(ok),
                    f"plot_result[x={dim}, array "
                    f"{'present' if has else 'absent'}]: error values "
@@ -549,6 +634,14 @@ def _result_plots(ctx, prog):
         return
     b = cm[0].data["bound"] or {}
     pm = b.get("plot_mode")
+    arr = b.get("array")
+    if arr is not None and any(_perm_of(a, errs) not in (None, False)
+                               for a in tm.strip_ite(arr)):
+        ctx.unrecognised("C20.8", cm[0], "plot_result: the colour-mapped "
+                         "values are re-ordered before plotting (wiring rule "
+                         "does not model a permuted trajectory)",
+                         key="C20.8:colormap")
+        return
     ok = b.get("traj") is tm.param("traj_est") and b.get("array") is errs \
         and pm is not None and is_call_to(pm, PL + "PlotMode") and \
         pm.args[1] and pm.args[1][0] is A("plot_mode")
